@@ -118,7 +118,10 @@ def check(ctx):
         ppx.twin_predef(r, pc)
     hand = ["`define A(x, y = 2, z) x+y \\\n +z\n`define B\n`define C \n`undef B\n`define D(p=(1,2), q=\"s,t\") p q\n",
             "`define A 1\n`undefineall\n`define B 2\n", "`define __LINE__ 5\n`define __FILE__ x\n`undef __LINE__\n",
-            "`define M `define INNER 1\n`M\n", "`define U `undef A\n`define A 1\n`U\n", "`define SV_COV_OK 7\n"]
+            "`define M `define INNER 1\n`M\n", "`define U `undef A\n`define A 1\n`U\n", "`define SV_COV_OK 7\n",
+            # the definition written last is the one in force: same body, other defaults / other formal names / other order
+            "`define W(n=8) logic [n-1:0]\n`define W(n=16) logic [n-1:0]\n`define SUB(a,b) a-b\n`define SUB(b,a) a-b\n`define K(x) x\n`define K(y) x\n",
+            "`define V 1\n`define V 1\n`define T(a) a\n`define T(a = 0) a\n`define T2(a=1) a\n`define T2(a) a\n"]
     pcs += [ppx.PC({"top.sv": t}, predefs=[("PRE", None), ("P2", [("a", None)], "a a")], tag="hand") for t in hand]
     wants = ("text", "defines", "deforg", "pplog", "origins")
     cases, res, diffs = ppx.correspond(ctx, "preprocess (returned table) vs PP/Eval.v", pcs, "c11")
@@ -134,7 +137,9 @@ def check(ctx):
     # hand cases with explicit expectations
     exp_hand = [
         {"A": ([("x", None), ("y", "2"), ("z", None)], " x+y \\\n +z"), "C": ([], " "), "D": ([("p", "(1,2)"), ("q", "\"s,t\"")], " p q")},
-        {"B": ([], " 2")}, {}, {"M": ([], " `define INNER 1"), "INNER": ([], " 1")}, {"U": ([], " `undef A")}, {"SV_COV_OK": ([], " 7")}]
+        {"B": ([], " 2")}, {}, {"M": ([], " `define INNER 1"), "INNER": ([], " 1")}, {"U": ([], " `undef A")}, {"SV_COV_OK": ([], " 7")},
+        {"W": ([("n", "16")], " logic [n-1:0]"), "SUB": ([("b", None), ("a", None)], " a-b"), "K": ([("y", None)], " x")},
+        {"V": ([], " 1"), "T": ([("a", "0")], " a"), "T2": ([("a", None)], " a")}]
     for pc, rr, e in zip(pcs[-len(hand):], res[-len(hand):], exp_hand):
         g = {k: (v if v is None else (v[0], v[1])) for k, v in got_table(rr).items()} if rr.ok else None
         ee = dict(e)
